@@ -607,17 +607,17 @@ static void op_hist(int argc, char** a)
 {
 	if (init_from_cfg(a[0]) != SZ_SCES) { printf("st=init-failed\n"); return; }
 	unsigned char* streams[MAXS]; size_t sizes[MAXS]; int types[MAXS]; size_t sdims[MAXS][5]; int ns = 0;
-	printf("snap="); snap();
+	printf("snap="); snap(); fflush(R);
 	char* list = strdup(a[1]); char* save1;
 	for (int pass = 0; pass < 2; pass++) {
 		char* tok0 = pass == 0 ? list : a[2];
 		for (char* t = strtok_r(tok0, "/", &save1); t; t = strtok_r(NULL, "/", &save1)) {
 			int executed = 1;
-			if (t[0] == 'c' || t[0] == 'C' || t[0] == 'k') {
+			if (t[0] == 'c' || t[0] == 'C' || t[0] == 'k' || t[0] == 'K') {
 				int ty, mode = 0, kind; uint64_t ab = 0, rb = 0, pb = 0, seed, sb; char dims[128]; char name[32] = "";
 				if (t[0] == 'c') sscanf(t, "c:%x:%x:%" SCNx64 ":%" SCNx64 ":%" SCNx64 ":%127[^:]:%d:%" SCNx64 ":%" SCNx64, &ty, &mode, &ab, &rb, &pb, dims, &kind, &seed, &sb);
 				else if (t[0] == 'C') sscanf(t, "C:%x:%127[^:]:%d:%" SCNx64 ":%" SCNx64, &ty, dims, &kind, &seed, &sb);
-				else sscanf(t, "k:%31[^:]:%x:%127[^:]:%d:%" SCNx64 ":%" SCNx64, name, &ty, dims, &kind, &seed, &sb);
+				else sscanf(t + 2, "%31[^:]:%x:%127[^:]:%d:%" SCNx64 ":%" SCNx64, name, &ty, dims, &kind, &seed, &sb);   /* k: customize entry, K: its thread-safe twin (float/double) */
 				size_t r[5]; parse_dims(dims, r); size_t n = computeDataLength(r[0], r[1], r[2], r[3], r[4]);
 				char spec[256]; double off = (mode == PW_REL) ? 3.0 : 0.0; uint64_t ob; memcpy(&ob, &off, 8);
 				double sc; memcpy(&sc, &sb, 8); if (mode == PW_REL) { off = 3.0 * sc; memcpy(&ob, &off, 8); }
@@ -627,7 +627,8 @@ static void op_hist(int argc, char** a)
 				size_t os = 0; unsigned char* b; int cst = 0;
 				if (t[0] == 'c') b = SZ_compress_args(ty, data, &os, mode, absb, rel, pwr, r[0], r[1], r[2], r[3], r[4]);
 				else if (t[0] == 'C') b = SZ_compress(ty, data, &os, r[0], r[1], r[2], r[3], r[4]);
-				else b = SZ_compress_customize(name, NULL, ty, data, r[0], r[1], r[2], r[3], r[4], &os, &cst);
+				else if (t[0] == 'k') b = SZ_compress_customize(name, NULL, ty, data, r[0], r[1], r[2], r[3], r[4], &os, &cst);
+				else { sz_params up = *confparams_cpr; b = SZ_compress_customize_threadsafe(name, &up, ty, data, r[0], r[1], r[2], r[3], r[4], &os, &cst); }
 				if (t[0] != 'c') { mode = confparams_cpr->errorBoundMode; absb = confparams_cpr->absErrBound; rel = confparams_cpr->relBoundRatio; }
 				if (pass == 1) {
 					uint64_t h = 1469598103934665603ULL; for (size_t i = 0; b && i < os; i++) { h ^= b[i]; h *= 1099511628211ULL; }
@@ -660,7 +661,7 @@ static void op_hist(int argc, char** a)
 				if (init_from_cfg(a[0]) != SZ_SCES) { printf(" reinit-failed"); }
 			}
 			else executed = 0;
-			if (pass == 0) { if (!executed) printf("!"); snap(); }
+			if (pass == 0) { if (!executed) printf("!"); snap(); fflush(R); }     /* survives a crash of a later operation (partial line) */
 		}
 	}
 	printf("\n");
